@@ -106,6 +106,10 @@ func (c checkSchema) checkNode(node ischema.Node, ss map[string]ischema.Type) {
 }
 
 func (c checkSchema) checkLiteralNode(node ischema.Node, ss map[string]ischema.Type) {
+	if isNullableNull(node) {
+		return
+	}
+
 	checkerList := c.checkerList(node, ss)
 	errorsCount := 0
 	var err kit.Error
@@ -196,9 +200,18 @@ func (c *checkSchema) checkLinksOfNode(node ischema.Node, ss map[string]ischema.
 	}
 
 	c.collectAllowedJsonTypes(node, ss)
+	if isNullableNull(node) {
+		return
+	}
 	if _, ok := c.allowedJsonTypes[node.Type()]; !ok {
 		panic(errs.ErrIncorrectUserType.F())
 	}
+}
+
+// isNullableNull tells whether the example is `null` next to `nullable: true`:
+// that is valid whatever the referenced types or `or` alternatives admit.
+func isNullableNull(node ischema.Node) bool {
+	return node.Type() == json.TypeNull && node.Constraint(constraint.NullableConstraintType) != nil
 }
 
 func (c *checkSchema) ensureShortcutKeysAreValid(node *ischema.ObjectNode) error {
